@@ -418,6 +418,19 @@ def execute(case, keep_text=False, after_fit=None):
                              'stored sample' % (fn, ent['nest_map']))
                         raise Stop()
                     map_vec.append(float(mp[0]))
+            # the MAP is ONE sample: the per-parameter entries must be the
+            # coordinates of a single stored row (of greatest weight for
+            # nestle), not a mixture of rows
+            if not out.violations and kind != 'multinest':
+                rows = range(len(W_))
+                if kind in ('nestle', 'nestle_real'):
+                    rows = [j for j in rows if W_[j] == W_.max()]
+                if not any(all(S_[j, i] == map_vec[i] for i in range(ndim))
+                           for j in rows):
+                    viol('map', kind + ':not-one-sample', 'the reported MAP '
+                         'vector %r is not a single stored sample%s'
+                         % (map_vec, ' of greatest weight'
+                            if kind.startswith('nestle') else ''))
             if out.violations:
                 raise Stop()
 
